@@ -74,10 +74,7 @@ def check(case, ctx):
     pabs = model.rolling_abs(lk, vals, mb, n) if dt.kind == "f" else None
     eps = cmp.EPS.get(dtype, cmp.EPS["float64"])
     # dtype kind: no detour through floating point
-    try:
-        rk = np.dtype(r.dtype).kind
-    except TypeError:
-        rk = "?"
+    rk = ops.dtype_kind(r.dtype)
     if op != "cumcount":
         if dt.kind in "iub" and op == "cumsum" and rk not in "iu":
             fails.append({"monitor": "c08.dtype", "sig": sig, "detail": f"cumsum of {dtype} returned dtype {r.dtype}"})
